@@ -20,6 +20,7 @@ SKELETONS = [
     R + "wait_group_impl.go:waitGroup.Add", R + "wait_group_impl.go:waitGroup.Done",
     R + "eviction_state_impl.go:evictionState.Evict", R + "eviction_state_impl.go:evictionState.evict",
     R + "eviction_state_impl.go:evictionState.EvictionEvent",
+    "ds/shrinkingmap/shrinkingmap.go:ShrinkingMap.GetOrCreate",
 ]
 EXTRA = ["LockExecution", "UnlockExecution", "MarkUnsubscribed", "Invoke", "Trigger", "OnUpdate", "Compute", "Set", "Get",
          "Add", "Delete", "unsubscribeFromWeightUpdates", "updatePosition", "Apply", "Subtract"]
@@ -41,7 +42,7 @@ SPEC = {
         "C14_derived_set", "C14_derived_set_counts", "C14_subtract", "C14_counter",
         "C14_derived_set_concurrent", "C14_subtract_concurrent", "C14_skeleton_readableSet_SubtractReactive", "C14_counter_concurrent", "C14_sorted_set_concurrent",
         "C14_sorted_set", "C14_sorted_set_spec", "C14_sorted_set_members", "C14_sorted_set_absent_weight",
-        "C14_eviction", "C14_eviction_unique", "C14_eviction_pre", "C14_eviction_concurrent", "C14_eviction_concurrent_safety",
+        "C14_eviction", "C14_eviction_unique", "C14_eviction_pre", "C14_eviction_concurrent", "C14_eviction_concurrent_safety", "C14_skeleton_ShrinkingMap_GetOrCreate",
         "C14_waitgroup_sequential", "C14_waitgroup_counter", "C14_waitgroup_only_if", "C14_waitgroup",
         "C14_deadlock_free", "C14_scripts_ranked", "C14_ranked_deadlock_free",
         "C14_derived_set_old_replace_witness", "C14_counter_old_unsubscribe_witness", "C14_waitgroup_old_race_witness",
